@@ -420,6 +420,38 @@ Theorem C06_written_file_seeks : forall o L md5, (forall l, length (md5 l) = 16%
         FlacReaders.Spec.seeks_land written atr /\ FlacReaders.Spec.failed_seeks_safe written atr.
 Proof. exact written_file_seeks. Qed.
 
+(* ... and the byte reader (serialisation of the written samples in the reader's byte order) and the channel reader (the
+   de-interleaved written samples) over the same written, seekable file *)
+Theorem C06_written_file_seeks_bytes_channels : forall o L md5, (forall l, length (md5 l) = 16%nat) ->
+  forall p rate bps wo ch total w chunks iv e rp,
+  options_wf wo -> o_seektable_interval wo = Some iv ->
+  sample_new p [] wo rate bps ch total = Ok w ->
+  forallb (FlacCodec.Wf.fits bps) (concat chunks) = true ->
+  let W := N.of_nat (length (concat chunks)) / ch in
+  let written := firstn (N.to_nat ch * (length (concat chunks) / N.to_nat ch)) (concat chunks) in
+  1 <= W -> N.of_nat (length (concat chunks)) < 2 ^ 36 ->
+  match total with Some T => T = ch * W | None => True end ->
+  exists f blocks,
+    sample_run (encB o L rate bps) md5 p w chunks = Ok f /\
+    forall pts, first_seektable (f_blocks f) = Some pts ->
+    exists table, Forall2 (point_rel blocks) pts table /\
+      let F := file_of_blocks_seek blocks ch bps (Some (FlacCodec.Enc_proofs.blocks_samples blocks)) table e rp in
+      FlacReaders.Spec.pcm_bytes F = FlacReaders.Ser.ser e (FlacReaders.Ser.bytes_per_sample bps) written /\
+      (forall ops, Forall FlacReaders.Spec.bop_ok (snd (FlacReaders.Seek.byte_run F ops)) ->
+        let atr := map (FlacReaders.Spec.abs_b F) (snd (FlacReaders.Seek.byte_run F ops)) in
+        Forall (FlacReaders.Spec.cur_ok (FlacReaders.Spec.pcm_bytes F)) atr /\
+        FlacReaders.Spec.chained 0 atr (FlacReaders.Spec.bpos F (fst (FlacReaders.Seek.byte_run F ops))) /\
+        FlacReaders.Spec.seeks_land (FlacReaders.Spec.pcm_bytes F) atr /\ FlacReaders.Spec.failed_seeks_safe (FlacReaders.Spec.pcm_bytes F) atr) /\
+      (forall ops c, (c < N.to_nat ch)%nat -> Forall FlacReaders.Spec.cop_ok (snd (FlacReaders.Seek.chan_run F ops)) ->
+        let atr := map (FlacReaders.Spec.abs_c F c) (snd (FlacReaders.Seek.chan_run F ops)) in
+        Forall (FlacReaders.Spec.cur_ok (FlacReaders.Spec.chan_pcm F c)) atr /\
+        FlacReaders.Spec.chained 0 atr (FlacReaders.Spec.cpos (fst (FlacReaders.Seek.chan_run F ops))) /\
+        FlacReaders.Spec.seeks_land (FlacReaders.Spec.chan_pcm F c) atr /\ FlacReaders.Spec.failed_seeks_safe (FlacReaders.Spec.chan_pcm F c) atr) /\
+      (forall c, (c < N.to_nat ch)%nat -> forall i, (i < length written / N.to_nat ch)%nat ->
+        nth_error (FlacReaders.Spec.chan_pcm F c) i = nth_error written (i * N.to_nat ch + c)).
+Proof. exact written_file_seeks_bytes_channels. Qed.
+
+Print Assumptions C06_written_file_seeks_bytes_channels.
 Print Assumptions C06_written_file_seeks.
 Print Assumptions C09_end_to_end_seekpoints.
 Print Assumptions C09_sample_writer_seekpoints.
